@@ -46,7 +46,14 @@ fn main() {
             let path = args.get(2).unwrap_or_else(|| usage());
             let v: serde_json::Value = serde_json::from_str(&std::fs::read_to_string(path).unwrap()).unwrap();
             let case = v["replay"]["case"].clone();
-            if let Ok(c) = serde_json::from_value::<qv::crash::CrashCase>(case.clone()) {
+            if let Ok(c) = serde_json::from_value::<qv::fault::FaultCase>(case.clone()) {
+                // fault plan: explain the history run under the plan (faults stay on; no healing)
+                let mut seq = c.seq.clone();
+                if let qv::fault::FaultMode::Plan(p) = &c.mode {
+                    seq.faults = Some(p.clone());
+                }
+                println!("{}", qv::crash::explain(&qv::crash::CrashCase { seq, crash: vec![] }));
+            } else if let Ok(c) = serde_json::from_value::<qv::crash::CrashCase>(case.clone()) {
                 println!("{}", qv::crash::explain(&c));
             } else if let Ok(c) = serde_json::from_value::<qv::case::SeqCase>(case) {
                 println!("{}", qv::crash::explain(&qv::crash::CrashCase { seq: c, crash: vec![] }));
@@ -58,6 +65,26 @@ fn main() {
             let v: serde_json::Value = serde_json::from_str(&std::fs::read_to_string(path).unwrap()).unwrap();
             let c: qv::crash::CrashCase = serde_json::from_value(v["replay"]["case"].clone()).unwrap();
             println!("{}", qv::crash::crashdump(&c, ev));
+        }
+        Some("gen-corpus") => {
+            // qv gen-corpus <dir>: seed corpora for the fuzz targets
+            use proptest::strategy::{Strategy, ValueTree};
+            let dir = std::path::PathBuf::from(args.get(2).unwrap_or_else(|| usage()));
+            for sub in ["fz_header", "fz_image", "fz_history"] {
+                let _ = std::fs::create_dir_all(dir.join(sub));
+            }
+            for (i, b) in qv::props::c14::corpus_header_samples().into_iter().enumerate() {
+                let _ = std::fs::write(dir.join("fz_header").join(format!("seed{i}")), b);
+            }
+            let mut runner = proptest::test_runner::TestRunner::deterministic();
+            let strat = qv::gen::raw_strategy(16, 30, 60, 24);
+            for i in 0..48 {
+                let raw = strat.new_tree(&mut runner).unwrap().current();
+                let b = raw.to_bytes();
+                let _ = std::fs::write(dir.join("fz_image").join(format!("seed{i}")), &b);
+                let _ = std::fs::write(dir.join("fz_history").join(format!("seed{i}")), &b);
+            }
+            println!("corpus written to {}", dir.display());
         }
         Some("worker") => {
             qv::props::c14::worker_main();
